@@ -42,6 +42,18 @@
    schedule releases them.  A re-delivered batch must leave the node's state untouched: the model's Redeliver changes
    nothing, so a node that leaves a round with a duplicate in place of a missing peer's cast ends with results the
    Check relations (gkeq, pseq, own, rec, sig) or Ret2.pskeys expose.
+   Mode cb, failing sends: {"ev":"Fault","i":i,"r":r,"what":"p2p"|"sig"|"msg","k":k,"err":e,"where":w,"times":m}  the wire is
+   armed: the k-th direct share stream node i opens in round 1 (what = p2p; where = open: NewStream fails, = write: the
+   batch is written and THEN the write reports the error), or the k-th signature request (sig) / cast message (msg) of
+   its round-r reliable broadcast, fails m times in a row with a libp2p stream reset / resource-scope-closed error (the
+   class p2p.IsRelayError accepts) or a plain error.  Only i, r are bound (Fault(i, r)); the rest tells the executor
+   which send.  The node whose send failed may give up: its Start / Ret1 / Ret2 event then carries ok = false and an
+   "Abort" event ends the trace (StartAbort / Ret1Abort / Ret2Abort: only a node with a failed send may).  If it
+   carries on, everything is demanded as in a ceremony without faults.  In the modes that run the real frostP2P, Ret1
+   also carries "used" / "usedp": the sources of the round-1 casts / share batches the real transport Round1 RETURNED
+   (the keys of its result maps) -- the model's used1 (= every node) and got1p are demanded.
+   Every event of mode cb is logged when the stimulated node is quiescent (parked in the receive loop of its transport
+   call, or the call has returned): the real node has consumed everything it was given before the next move is made.
    Mode p2p: deliveries are the real network's and are not logged: the model delivers every sent batch at once
    (silent, canonical order, before the next event) -- sound, because results do not depend on the delivery order
    (FrostMC, free order) and a node whose real Round1/Round2 call was answered has received everything. *)
@@ -76,8 +88,15 @@ KeySet(s) == {<<k[1], k[2], k[3]>> : k \in SeqToSet(s)}
 \* a logged observation must equal the model's value; the name of the first one that does not is reported
 Rel(name, pred) == CheckInv(name, pred)
 TReset == IsEvent("Reset") /\ l = 1 /\ UNCHANGED vars
+CB == R.mode = "cb"
+TFault == IsEvent("Fault") /\ CB /\ Ev.i \in Nodes /\ Fault(Ev.i, Ev.r)
+\* the node gave up inside its round-1 send step: only after a failed send
+TStartA == /\ IsEvent("Start") /\ ~FULL /\ Quiet /\ Ev.i \in Nodes /\ ~Ev.ok
+           /\ Len(Ev.c) = par.nv
+           /\ StartAbort(Ev.i, [v \in Vals |-> Ev.c[v + 1]])
 TStart == /\ IsEvent("Start") /\ ~FULL /\ Quiet /\ Ev.i \in Nodes
           /\ Len(Ev.c) = par.nv
+          /\ (Ev.ok \/ 1 \notin flt[Ev.i])      \* (ok = false without a failed send: no alternative, Start.ok is reported)
           /\ Start(Ev.i, [v \in Vals |-> Ev.c[v + 1]])
           /\ Rel("Start.ok", Ev.ok)
           /\ Rel("Start.casts", KeySet(Ev.casts) = {<<v, Ev.i, 0>> : v \in Vals})
@@ -92,9 +111,16 @@ TD1P == IsEvent("D1P") /\ Wire /\ Deliver1P(Ev.i, Ev.j) /\ DOk
 TD2 == IsEvent("D2") /\ Wire /\ Deliver2(Ev.i, Ev.j) /\ DOk
 TRD == IsEvent("RD") /\ Wire /\ Ev.k \in Kinds /\ Redeliver(Ev.i, Ev.j, Ev.k) /\ Rel("Redeliver.ok", Ev.ok)
 TRet1 == /\ IsEvent("Ret1") /\ Quiet /\ Ev.j \in Nodes /\ Ret1(Ev.j)
+         /\ (Ev.ok \/ flt[Ev.j] = {})
          /\ Rel("Ret1.ok", Ev.ok = (phase'[Ev.j] = "r2"))
          /\ Rel("Ret1.casts", Ev.ok => KeySet(Ev.casts) = {<<v, Ev.j, 0>> : v \in Vals})
+         /\ Rel("Ret1.used", Has(Ev, "used") => SeqToSet(Ev.used) = used1'[Ev.j] /\ SeqToSet(Ev.usedp) = got1p[Ev.j])
+TRet1A == IsEvent("Ret1") /\ Quiet /\ Ev.j \in Nodes /\ ~Ev.ok /\ Ret1Abort(Ev.j)
+TRet2A == IsEvent("Ret2") /\ Quiet /\ Ev.j \in Nodes /\ ~Ev.ok /\ Ret2Abort(Ev.j)
+\* a node gave up after a failed send: the ceremony has aborted, the trace ends
+TAbort == IsEvent("Abort") /\ l = TLen /\ SomeAborted /\ UNCHANGED vars
 TRet2 == /\ IsEvent("Ret2") /\ Quiet /\ Ev.j \in Nodes /\ Ret2(Ev.j)
+         /\ (Ev.ok \/ flt[Ev.j] = {})
          /\ Rel("Ret2.ok", Ev.ok = (phase'[Ev.j] = "done"))
          /\ ((\A k \in Nodes : phase'[k] = "done") => Trace[TLen].ev = "Check")   \* a completed ceremony is examined
          /\ Rel("Ret2.results", Len(Ev.pskeys) = par.nv)
@@ -128,14 +154,14 @@ TFull == /\ IsEvent("Full") /\ FULL /\ Quiet /\ AllDone /\ UNCHANGED vars
          /\ Rel("Full.deposit", Ev.deposit = \A v \in Vals, k \in Nodes : SigOK(k, v, Nodes, H))
 \* a p2p / full ceremony cut short by the real network's wall-clock timeouts: the recorded prefix stands, no verdict on the rest
 TStop == IsEvent("Stop") /\ l = TLen /\ UNCHANGED vars
-TraceNext == TReset \/ TNet \/ TAuto \/ TFull \/ TStart \/ TD1C \/ TD1P \/ TD2 \/ TRD \/ TRet1 \/ TRet2 \/ TCheck \/ TStop
+TraceNext == TReset \/ TNet \/ TAuto \/ TFull \/ TFault \/ TStart \/ TStartA \/ TRet1A \/ TRet2A \/ TAbort \/ TD1C \/ TD1P \/ TD2 \/ TRD \/ TRet1 \/ TRet2 \/ TCheck \/ TStop
 TraceSpec == TraceInit /\ [][TraceNext]_tvars
 Mark == /\ CheckInv("TypeOK", TypeOK) /\ CheckInv("NoFailure", NoFailure) /\ CheckInv("ThresholdIsT", ThresholdIsT)
         /\ CheckInv("Agreement", Agreement) /\ CheckInv("KeyedByShareIdx", KeyedByShareIdx)
         /\ CheckInv("OwnShareMatches", OwnShareMatches) /\ CheckInv("GroupKeyIsSum", GroupKeyIsSum)
-        /\ CheckInv("CountsDistinct", CountsDistinct)
+        /\ CheckInv("CountsDistinct", CountsDistinct) /\ CheckInv("UsedAllCasts", UsedAllCasts)
         /\ HWMark
 ActOK == /\ CheckInv("RedeliveryNoEffect", redel' # redel =>
-                       UNCHANGED <<par, phase, poly, c1, p1, c2, got1c, got1p, got2, cnt1, cnt2, sk, vk, res>>)
+                       UNCHANGED <<par, phase, poly, c1, p1, c2, got1c, got1p, got2, cnt1, cnt2, flt, used1, sk, vk, res>>)
          /\ CheckInv("BarrierComplete", \A j \in Nodes : LeavesComplete(j))
 ====
